@@ -12,6 +12,7 @@ All names are str, fs-decoded with surrogateescape (so any byte is reachable
 and the descriptor survives JSON).
 """
 import os
+import stat as _stat
 import shutil
 import tempfile
 
@@ -135,6 +136,11 @@ class World(object):
                 os.symlink(subst(nd['to'], R), p)
             elif t == 'p':
                 os.mkfifo(p, nd.get('m', 0o644))
+            elif t == 's':
+                os.mknod(p, _stat.S_IFSOCK | nd.get('m', 0o644))
+            elif t == 'c':
+                # a character device node (the null device's numbers)
+                os.mknod(p, _stat.S_IFCHR | nd.get('m', 0o600), os.makedev(1, 3))
             else:
                 raise ValueError('bad node type %r' % t)
             if nd.get('o'):
